@@ -256,8 +256,11 @@ pub fn run_case(c: &MountCase, acc: &mut Acc, verbose: bool) -> Result<(), Failu
             }
             let _ = info;
             for (sec, off, width, value) in edits {
-                if sec % 3 == 1 {
-                    put(&mut img, start, *off as usize % 512, *width, *value);
+                match sec % 3 {
+                    1 => put(&mut img, start, *off as usize % 512, *width, *value),
+                    // partition length / type / status in the MBR (never the start LBA: that is the point here)
+                    0 if *off != 454 => put(&mut img, 0, *off as usize % 512, *width, *value),
+                    _ => {}
                 }
             }
             let opened = open_all_sized(img)?;
